@@ -22,7 +22,8 @@ class Unsupported(Exception):
 
 
 # ------------------------------------------------------------------------------------------ parser
-_TOKEN = re.compile(r'\s*(?:("(?:[^"\\]|\\.)*")|(\d+\'[01xz\-]*)|([{}\[\]:,])|([^\s{}\[\]:,"]+))')
+# identifiers (\\name, $name) run up to the next white space, as in Yosys' RTLIL lexer: "\\sig[0]" is one name, "\\sig [0]" a bit select
+_TOKEN = re.compile(r'\s*(?:("(?:[^"\\]|\\.)*")|(\d+\'[01xz\-]*)|([{}\[\]:,])|([\\$][^\s]+)|([^\s{}\[\]:,"]+))')
 
 
 def tokenize(line):
@@ -33,7 +34,7 @@ def tokenize(line):
         m = _TOKEN.match(line, pos)
         if not m:
             raise RtlilError(f"cannot tokenize: {line!r}")
-        out.append(m.group(1) or m.group(2) or m.group(3) or m.group(4))
+        out.append(m.group(1) or m.group(2) or m.group(3) or m.group(4) or m.group(5))
         pos = m.end()
     return out
 
